@@ -625,7 +625,7 @@ Proof.
 Qed.
 End MetaTrace.
 
-(* ==== BEGIN rtbuf-from-source (unit rtbuf, Gen/RtBuf_gen.v) ============================================
+(* ==== BEGIN rtbuf-from-source (unit rtbuf, Gen/RtBuf_gen.v) =====================================
    C02_valid_stream_always for the buffer functions GENERATED from src/rt/ovni.c (see the block of the same name in
    Props/Properties_C01.v: C01_buffer_ops_from_source, C01_runs_from_source; proofs in Proofs/RtBufGenProofs.v):
    at every moment of a conformant run of the generated code both the written bytes and written ++ buffered bytes
@@ -660,3 +660,27 @@ Example C02_ex_generated_refuting_program :
   end.
 Proof. vm_compute. repeat split. Qed.
 (* ==== END rtbuf-from-source ==== *)
+(* ==== static description from the metadata (SysStaticDefs) ==== *)
+(* The bridge between the metadata half and the acceptance half of C02.  C02_conformant_accepted takes the static
+   description sx of a one-stream trace as a hypothesis (s_threads sx = [ti], ti_tid / ti_pid <> 0, s_chans, find_cpu for
+   every CPU index the thread executes on).  Here they are CONCLUSIONS: for a trace as in C02_metadata_builds_system the
+   merge returns a system, and for the system of a one-thread trace (MetaDefs.thread_list sys = [(loom, pid, tid, app)])
+   static_of_system sys ... (Emu/SysStaticDefs.v: threads in thread_list order, CPUs in cpu_list order, the channels of
+   the enabled models and of the mark types) has exactly that thread, with the ids of the metadata, both non-zero, and
+   find_cpu succeeds on the thread's loom for every CPU index that some stream of that loom registers
+   (ovni_add_cpu -> ovni.loom_cpus -> cpu_claims).  rankf (the rank of each process), en, ms and lint are free: the
+   statement holds for each choice.  Also exported for C13: C13_static_same_system, C13_find_cpu_of_system. *)
+From OV Require Emu.SysStaticDefs Proofs.SysStaticProofs.
+Theorem C02_static_from_metadata : forall c tr,
+  VersionDefs.version_parse (Some (RtMetaDefs.c_model_version c)) <> None ->
+  (forall p, In p tr -> RtMetaDefs.meta_conformant p = true /\ RtMetaDefs.completed (fst (RtMetaDefs.run c p)) = true) ->
+  RtMetaDefs.trace_ok tr ->
+  exists sys, MetaDefs.build (RtMetaDefs.trace_metas tr) = MetaDefs.Ok sys /\
+    forall rankf en ms lint l pid tid a, MetaDefs.thread_list sys = [(l, pid, tid, a)] ->
+      let sx := SysStaticDefs.static_of_system sys rankf en ms lint in
+      exists ti, s_threads sx = [ti] /\ ti_tid ti = tid /\ ti_pid ti = pid /\ ti_appid ti = a /\ ti_tid ti <> 0 /\ ti_pid ti <> 0 /\
+        s_chans sx = mk_chans en ++ mark_chans ms /\ s_lint sx = lint /\
+        forall idx ph, In (l, Some (idx, ph)) (MetaDefs.cpu_claims (RtMetaDefs.trace_metas tr)) -> find_cpu sx (ti_loom ti) idx <> None.
+Proof. exact SysStaticProofs.static_from_runtime_metadata. Qed.
+Print Assumptions C02_static_from_metadata.
+(* ==== end of block (SysStaticDefs) ==== *)
